@@ -80,8 +80,35 @@ def segOfJson (j : Json) : Option (List BOp × Tpl.Term) := do
   | some v => do let σ ← sigmaOfJson v; pure (body, .pre σ)
   | none => pure (body, .flush)
 
+def templateHevOfJson (j : Json) : Option HEv := do
+  let k ← (jField? j "k").bind jStr?
+  if k == "build" then do let op ← (jField? j "op").bind bopOfJson; pure (.build op)
+  else if k == "flush" then pure .flush
+  else if k == "commit" then pure .commit
+  else if k == "compile" then do let σ ← (jField? j "pre").bind sigmaOfJson; pure (.compile σ)
+  else none
+
+def templateHistRun (rac : Bool) : HSt → List HEv → List Json × Option HSt
+  | s, [] => ([], some s)
+  | s, e :: es =>
+    match stepH rac s e with
+    | none => ([Json.null], none)
+    | some s' =>
+      let r := templateHistRun rac s' es
+      (Json.mkObj [("bk", bkToJson s'.bk), ("queue", toJson s'.queue.length),
+                   ("sent", toJson s'.sent.length)] :: r.1, r.2)
+
 def handleTemplate (op : String) (j : Json) : Option Json :=
-  if op == "tpl.run" then do
+  if op == "tpl.hist" then do
+    let evs ← (jField? j "events").bind jArr?
+    let evs ← evs.toList.mapM templateHevOfJson
+    let rac := ((jField? j "rac").bind jBool?).getD false
+    let r := templateHistRun rac ⟨Bk.init, [], []⟩ evs
+    let subs := match r.2 with
+      | some s => Json.arr ((s.sent ++ s.queue).map (fun cs => subToJson (some cs))).toArray
+      | none => Json.null
+    pure (Json.mkObj [("steps", Json.arr r.1.toArray), ("subs", subs)])
+  else if op == "tpl.run" then do
     let segs ← (jField? j "segs").bind jArr?
     let segs ← segs.toList.mapM segOfJson
     let old := ((jField? j "old").bind jBool?).getD false
